@@ -24,6 +24,12 @@ def check_C04(res, tier, seed, replay):
             if r['violated']:
                 raise vlib.HarnessError('%s/%s violated\n%s' % (mod, cfg, r['out'][-3000:]))
             res.add_mc(mod + '.tla: ' + what, r)
+        try:
+            nob, npr = vlib.tlaps('ReduceAlgebra')
+        except Exception as e:      # the proof layer is an extra: a prover timeout must not break the check
+            nob, npr = 0, 0
+            res.cov['tlaps_error'] = str(e)[-300:]
+        res.cov['tlaps'] = {'module': 'ReduceAlgebra.tla', 'obligations': nob, 'discharged': npr, 'checker_cmd': 'tlapm ReduceAlgebra.tla', 'what': 'MPI reduction operator: associativity, commutativity, neutrality (unbounded)'}
         exe = harness()
         inputs = []
         gs, _ = gens.tlc_graphs(wd, 4, [1, 2])
